@@ -574,7 +574,9 @@ fn reclassified_keyword(lang: SupportLang, before: &str, st: &Step, after: &str)
   let new_leaves: std::collections::HashMap<(usize, usize), bool> = leaves(lang, after).into_iter().map(|(s, e, n)| ((s, e), n)).collect();
   let (lo, hi) = (st.position, st.position + st.deleted);
   for (s, e, named) in leaves(lang, before) {
-    if named || e <= s || !before[s..e].chars().all(|c| c.is_alphabetic()) {
+    // (offsets come from a parse made by the code under test: never slice with them unchecked)
+    let Some(word) = before.get(s..e) else { continue };
+    if named || e <= s || !word.chars().all(|c| c.is_alphabetic()) {
       continue;
     }
     let (ns, ne) = if e <= lo {
@@ -585,7 +587,7 @@ fn reclassified_keyword(lang: SupportLang, before: &str, st: &Step, after: &str)
       continue;
     };
     if new_leaves.get(&(ns, ne)) == Some(&true) {
-      return Some(before[s..e].to_string());
+      return Some(word.to_string());
     }
   }
   None
